@@ -21,6 +21,7 @@ from odl.discr.partition import RectPartition
 from .. import cover, util
 
 SHARDS = {'quick': 4, 'thorough': 16}
+THOROUGH_ROUNDS = 4
 
 
 def axcls(p, ax):
